@@ -34,8 +34,12 @@ type c18unit struct {
 }
 
 func c18units() []c18unit {
-	att := func(t *testing.T) core.DutyDefinition { return core.NewAttesterDefinition(testutil.RandomAttestationDuty(t)) }
-	pro := func(t *testing.T) core.DutyDefinition { return core.NewProposerDefinition(testutil.RandomProposerDuty(t)) }
+	att := func(t *testing.T) core.DutyDefinition {
+		return core.NewAttesterDefinition(testutil.RandomAttestationDuty(t))
+	}
+	pro := func(t *testing.T) core.DutyDefinition {
+		return core.NewProposerDefinition(testutil.RandomProposerDuty(t))
+	}
 	syn := func(t *testing.T) core.DutyDefinition {
 		d := testutil.RandomSyncCommitteeDuty(t)
 		if len(d.ValidatorSyncCommitteeIndices) == 0 {
